@@ -384,6 +384,25 @@ def run(ctx):
                 bad = "the dashed edge /g/y -> /g/x (x loads the path of y) is missing: edges %s" % sorted(de)
         if bad:
             res.violations.append({"what": bad, "input": {"source": src, "entry": {"kind": "eval", "fun": "f0"}}, "kf": None})
+        # the format of the export is the extension of the file: every format that the installed graphviz renders is accepted
+        import subprocess
+        for fmt in ("svg", "plain", "json", "gv", "xdot", "canon", "dot", "eps", "plain-ext", "json0", "dot_json", "fig", "tk"):
+            try:
+                ok_fmt = subprocess.run(["dot", "-T" + fmt], input=b"digraph { a -> b }", capture_output=True, timeout=60).returncode == 0
+            except Exception:
+                ok_fmt = False
+            if not ok_fmt:
+                res.count("export_formats_not_rendered_by_graphviz")
+                continue
+            outf = os.path.join(base, "g_fmt." + fmt)
+            rf = real.run({"kind": "eval", "fun": "f0"}, {"export_graph": outf})
+            res.evaluations += 1
+            res.count("export_formats")
+            res.nontrivial("export format " + fmt)
+            if rf["error"] is not None or not os.path.isfile(outf) or os.path.getsize(outf) == 0 or rf["value"] != r["value"]:
+                res.violations.append({"what": "the export of the graph to a file with the extension .%s (a format graphviz renders) fails or changes the result: error %s, "
+                                               "file written: %s" % (fmt, rf["error"], os.path.isfile(outf)),
+                                       "input": {"source": src, "entry": {"kind": "eval", "fun": "f0"}, "export_file": "g_fmt." + fmt}, "kf": None})
     finally:
         shutil.rmtree(base, ignore_errors=True)
         for k in list(sys.modules):
